@@ -4,7 +4,7 @@ from ..gen import programs
 from ..oracles import clauses
 from ..treecheck import TreeCheck
 
-DRIVER_FILES = ("process_executor.py", "reusable_executor.py", "backend/queues.py", "mp/queues.py", "backend/synchronize.py", "mp/util.py")
+DRIVER_FILES = ("process_executor.py", "reusable_executor.py", "backend/queues.py", "mp/queues.py", "backend/synchronize.py", "mp/util.py", "mp/process.py")
 WORKER_FILES = ("process_executor.py", "backend/queues.py", "mp/queues.py", "backend/popen_loky_posix.py", "mp/process.py", "backend/synchronize.py")
 
 
@@ -60,6 +60,7 @@ class C01(TreeCheck):
                 act = rng.choice(explore.KILL_ACTIONS)
                 for h in explore.hits_for(pt, rng, which=(rng.choice(["first", "last"]),)) or [1]:
                     out.append(({"rules": [explore.rule(pt, act, hit=h)]}, {"mode": "K", "fn": pt["qual"], "act": act[0]}))
+        out += explore.derive_DS(F, base, rng, 1 if tier == "quick" else 3)
         for z in range(nz):
             out.append(({"seed": rng.randint(0, 10**6), "rules": [{"role": "*", "action": ["jitter", 0.03, 0.02]}]}, {"mode": "Z"}))
         return out
